@@ -25,9 +25,11 @@ M = [
     ("C03-slices-swapped", "C03", "xgcm/padding.py", r"(if reverse:\n\s+source_slice_index = )slice\(-2 \* width, -width\)(\n\s+else:\n\s+source_slice_index = )slice\(width, 2 \* width\)(\n\n\s+target_slice_index = slice\(0, -width\))", r"\1slice(width, 2 * width)\2slice(-2 * width, -width)\3"),
     ("C05-no-tangential-flip", "C05", "xgcm/padding.py", r"if swap_axis and not reverse:\n(\s+)source_slice = source_slice\.isel\(\n\s+\{tangential_dim: slice\(None, None, -1\)\}\n\s+\)", r"if swap_axis and not reverse:\n\1pass"),
     ("C05-trim", "C05", "xgcm/padding.py", r"start = padding_width_expanded\[axname\]\[0\] - padding_width\[axname\]\[0\]\n(\s+)stop = padding_width_expanded\[axname\]\[1\] - padding_width\[axname\]\[1\]", r"start = padding_width_expanded[axname][1] - padding_width[axname][1]\n\1stop = padding_width_expanded[axname][0] - padding_width[axname][0]"),
-    ("C04-sign", "C04", "xgcm/padding.py", r"if vectoraxis == axname:\n(\s+# If the input is an orthogonal)", r"if vectoraxis != axname:\n\1"),
+    ("C05-sign", "C05", "xgcm/padding.py", r"if vectoraxis == axname:\n(\s+# If the input is an orthogonal)", r"if vectoraxis != axname:\n\1"),
     ("C04-partner-skipped", "C04", "xgcm/padding.py", r"source_da = da_partner_prepadded\.isel\(", "source_da = da_prepadded.isel("),
-    ("C06-cumsum-overlap", "C06", "xgcm/grid.py", r'map_overlap = True if funcname != "cumsum" else False', "map_overlap = True"),
+    # (not in the catalogue: `map_overlap = True if funcname != "cumsum"` -> always True is an equivalent mutant, Grid.cumsum
+    #  never goes through the dispatcher)
+    ("C06-no-merge", "C06", "xgcm/grid_ufunc.py", r"rechunked_arg = padded_arg\.chunk\(merged_boundary_chunks\)", "rechunked_arg = padded_arg"),
     ("C06-merge-wrong-end", "C06", "xgcm/grid_ufunc.py", r"first_chunk_width \+ lower_boundary_width,\n(\s+)\*other_chunks_widths,\n\s+last_chunk_width \+ upper_boundary_width,", r"first_chunk_width + upper_boundary_width,\n\1*other_chunks_widths,\n\1last_chunk_width + lower_boundary_width,"),
     ("C06-disallowed-emptied", "C06", "xgcm/grid_ufunc.py", r'DISALLOWED_OVERLAP_POSITIONS = \["inner", "outer"\]', "DISALLOWED_OVERLAP_POSITIONS = []"),
     ("C06-eager", "C06", "xgcm/padding.py", r"da_padded = da\.copy\(deep=False\)\n", "da_padded = da.copy(deep=False).compute()\n"),
